@@ -70,10 +70,28 @@ func layoutSource(n int, ctx string, layout []string) string {
 	var b strings.Builder
 	decl := func(L int, kind string) string {
 		trail := ""
-		if kind == "T" || kind == "M" {
+		if kind == "T" || kind == "M" || kind == "X" || kind == "E" {
 			trail = fmt.Sprintf(" // t%d", L)
 		}
 		multi := kind == "M"
+		if kind == "X" {
+			// a declaration spanning several source lines; the trailing comment follows its last line
+			switch ctx {
+			case "top":
+				return fmt.Sprintf("type T%d_%d struct {\n\tInner%d int\n}%s", n, L, L, trail)
+			case "type":
+				return fmt.Sprintf("\tT%d_%d struct {\n\t\tInner%d int\n\t}%s", n, L, L, trail)
+			case "const":
+				return fmt.Sprintf("\tC%d_%d = 1 +\n\t\t2%s", n, L, trail)
+			case "var":
+				return fmt.Sprintf("\tV%d_%d = []int{\n\t\t1,\n\t}%s", n, L, trail)
+			default:
+				return fmt.Sprintf("\tF%d_%d struct {\n\t\tInner%d int\n\t}%s", n, L, L, trail)
+			}
+		}
+		if kind == "E" && ctx == "struct" {
+			return fmt.Sprintf("\tEmb%d_%d%s", n, L, trail) // an embedded field
+		}
 		switch ctx {
 		case "top":
 			switch L % 3 {
@@ -147,10 +165,17 @@ func layoutSource(n int, ctx string, layout []string) string {
 			b.WriteString(")\n")
 		}
 	}
+	if ctx == "struct" {
+		for i, k := range layout {
+			if k == "E" {
+				fmt.Fprintf(&b, "\ntype Emb%d_%d struct{}\n", n, i+1)
+			}
+		}
+	}
 	return b.String()
 }
 
-var layoutName = regexp.MustCompile(`^[TCVF](\d+)_(\d+)b?$`)
+var layoutName = regexp.MustCompile(`^(?:[TCVF]|Emb)(\d+)_(\d+)b?$`)
 
 func (commentsFam) ExecAll(cases []core.CaseIn, seed int64, emit func(c core.CaseIn, cas, conc, obs any)) error {
 	type lay struct {
@@ -207,7 +232,11 @@ func (commentsFam) ExecAll(cases []core.CaseIn, seed int64, emit func(c core.Cas
 		DocTagkeys []string `json:"doc_tagkeys"`
 		DocLines   []string `json:"doc_lines"`
 		Comment    []string `json:"comment"`
-		Panicked   bool     `json:"panicked"`
+		// a second call of each, made after the caller has scribbled over everything the first call returned
+		DocTagvals2 []string `json:"doc_tagvals2"`
+		DocLines2   []string `json:"doc_lines2"`
+		Comment2    []string `json:"comment2"`
+		Panicked    bool     `json:"panicked"`
 	}
 	per := map[int][]declObs{}
 	observe := func(p gengotypes.Package, name string, pos token.Pos) {
@@ -217,7 +246,8 @@ func (commentsFam) ExecAll(cases []core.CaseIn, seed int64, emit func(c core.Cas
 		}
 		n, _ := strconv.Atoi(m[1])
 		L, _ := strconv.Atoi(m[2])
-		d := declObs{Line: L, Name: name, DocTagvals: []string{}, DocTagkeys: []string{}, DocLines: []string{}, Comment: []string{}}
+		d := declObs{Line: L, Name: name, DocTagvals: []string{}, DocTagkeys: []string{}, DocLines: []string{}, Comment: []string{},
+			DocTagvals2: []string{}, DocLines2: []string{}, Comment2: []string{}}
 		pn := core.Try(func() {
 			tags, lines := p.Doc(pos)
 			for _, k := range core.SortedKeys(tags) {
@@ -225,7 +255,26 @@ func (commentsFam) ExecAll(cases []core.CaseIn, seed int64, emit func(c core.Cas
 			}
 			d.DocTagvals = append(d.DocTagvals, tags["t"]...)
 			d.DocLines = append(d.DocLines, lines...)
-			d.Comment = append(d.Comment, p.Comment(pos)...)
+			cm := p.Comment(pos)
+			d.Comment = append(d.Comment, cm...)
+			// what a call returned belongs to the caller (gengo's own Context.Doc edits the first line in place)
+			for k, vs := range tags {
+				for i := range vs {
+					vs[i] = "scribbled"
+				}
+				tags[k] = append(vs, "scribbled")
+			}
+			tags["scribbled"] = []string{"x"}
+			for i := range lines {
+				lines[i] = "scribbled"
+			}
+			for i := range cm {
+				cm[i] = "scribbled"
+			}
+			tags2, lines2 := p.Doc(pos)
+			d.DocTagvals2 = append(d.DocTagvals2, tags2["t"]...)
+			d.DocLines2 = append(d.DocLines2, lines2...)
+			d.Comment2 = append(d.Comment2, p.Comment(pos)...)
 		})
 		d.Panicked = pn.Panicked
 		per[n] = append(per[n], d)
@@ -238,7 +287,9 @@ func (commentsFam) ExecAll(cases []core.CaseIn, seed int64, emit func(c core.Cas
 		scope := p.Pkg().Scope()
 		for _, name := range scope.Names() {
 			obj := scope.Lookup(name)
-			observe(p, name, obj.Pos())
+			if !strings.HasPrefix(name, "Emb") { // the helper types embedded by "E" lines are not layout declarations
+				observe(p, name, obj.Pos())
+			}
 			if tn, ok := obj.(*types.TypeName); ok {
 				if st, ok := tn.Type().Underlying().(*types.Struct); ok {
 					for k := 0; k < st.NumFields(); k++ {
